@@ -142,6 +142,7 @@ pub fn analyze(sc: &Scenario, out: &RunOut) -> Analysis {
     let mut cmd_target: Option<i64> = None; // step_until target
     let mut final_jump_seen = false;
     let mut terminated: Option<i64> = None; // frozen time
+    let mut terminated_cmd: usize = 0; // command that returned the fatal error
     let mut last_sync: Option<i64> = None;
     let mut sync_count_in_cmd = 0usize;
     let mut dropping = false;
@@ -422,8 +423,18 @@ pub fn analyze(sc: &Scenario, out: &RunOut) -> Analysis {
                 if dropping {
                     viol!("code_after_drop", "handler of node {} started after the simulation drop began", node);
                 }
-                if terminated.is_some() {
-                    viol!("term_activity", "handler of node {} (msg {}) ran after termination", node, id);
+                if let Some(frozen) = terminated {
+                    // On the multi-threaded executor the failing call returns as soon as the
+                    // failure is registered: computations of the failed step that were already
+                    // under way on other workers may still complete. They are not "further
+                    // attempts to run the simulation"; a handler is one only if its message was
+                    // issued by a later command or if it runs at a later simulation time.
+                    let from_failed_step = spec.threads > 1
+                        && *t <= frozen
+                        && sends.get(&id).map_or(true, |si| si.cmd <= terminated_cmd);
+                    if !from_failed_step {
+                        viol!("term_activity", "handler of node {} (msg {}) ran after termination", node, id);
+                    }
                 }
                 if init_state[node] != 2 {
                     viol!("before_init", "node {} handles msg {} before its init completed (state {})", node, id, init_state[node]);
@@ -746,6 +757,7 @@ pub fn analyze(sc: &Scenario, out: &RunOut) -> Analysis {
                 if let Res::Panicked(m) = res {
                     viol!("api_panic", "command #{} ({:?}) panicked: {}", i, cmd, m);
                     terminated = Some(now);
+                    terminated_cmd = *i;
                     close_step!(idx, true);
                     continue;
                 }
@@ -848,6 +860,7 @@ pub fn analyze(sc: &Scenario, out: &RunOut) -> Analysis {
                         }
                         if e.is_fatal() {
                             terminated = Some(*t_after);
+                            terminated_cmd = *i;
                             now = *t_after;
                             close_step!(idx, true);
                             continue;
@@ -1070,3 +1083,4 @@ pub fn analyze(sc: &Scenario, out: &RunOut) -> Analysis {
     }
     Analysis { viols: v, summary, orders }
 }
+
